@@ -167,7 +167,11 @@ def to_contract(qualname, hs, vidx, command=None, extra_requires=(), check_wf=Tr
                     # only Gateway.send and a wake touch the sleep buffer: every other handled message leaves it alone (C07)
                     cl.append(Clause("C07/buffer-untouched-by-non-wake-messages", f"implies({g}, same_dict(SM))", "property", guard=g))
                 cl.append(Clause(log_id(o) if o.log is not None else "C07/log-grows", f"implies({g}, {log_text(o)})", "property", guard=g))
-            cl.append(H(f"cases/{kind}", " or ".join(f"old({o.guard})" for o in outs)))
+            # which outcome a message has is part of what the properties say ("battery ... reports update the node's attributes", "types
+            # that exist are accepted"): an exit of this kind from a pre-state in which the specification gives another outcome - a
+            # legal report rejected, an illegal one recorded - fails here, whatever the exit itself leaves behind
+            owner = {"UnsupportedMessageError": "C05", "TooManyNodesError": "C11"}.get(kind, "C04")
+            cl.append(P(f"{owner}/outcome-as-specified/{kind}", " or ".join(f"old({o.guard})" for o in outs)))
             # whatever else happens, a handler that does not raise a transport error has not seen a write fail (C08: "the failure
             # is reported to the caller of listen" - a swallowed TransportError returns or raises something else with wfail advanced)
             cl.append(P("C08/a-failed-write-is-reported", NOFAIL))
